@@ -55,6 +55,7 @@ type Item struct {
 	Kinds  []string // obligation kinds that count for this property ("" = all)
 	Plugin string   // name of a plug-in obligation generator (mode A)
 	Depth  int
+	Opts   string
 }
 
 type Run struct {
